@@ -37,7 +37,7 @@ func init() {
 			{Name: "not-run-dropped", File: pkgProxy + "/handle_cmd.go",
 				Old:    "\t\tif !hasRun {\n\t\t\treturn (&chat.Builder{\n\t\t\t\tProtocol: c.player.Protocol(),\n\t\t\t\tMessage:  packet.Message,\n\t\t\t\tSender:   c.player.ID(),\n\t\t\t}).ToServer()\n\t\t}\n\t\treturn nil",
 				New:    "\t\t_ = hasRun\n\t\treturn nil",
-				Expect: "not-run-forwarded"},
+				Expect: "creator-shape"}, // the not-run return is gone: reported as the missing case of the three-way shape
 			{Name: "syntax-error-forwards", File: pkgProxy + "/handle_cmd.go",
 				Old: "\t\t\treturn true, player.SendMessage(&component.Text{\n\t\t\t\tContent: sErr.Error(),", New: "\t\t\treturn false, player.SendMessage(&component.Text{\n\t\t\t\tContent: sErr.Error(),", Expect: "hasRun-false-only"},
 		},
